@@ -72,6 +72,15 @@ def letcase(k):
     return "def f(x: i64): i64 { %s c%d.case { Red => 1, Green => 2, Blue => 3, Gray => 4 } }\n" % (" ".join(body), k)
 
 
+def letcallcase(k):
+    """let t: T = f(..); t.case {...} with a NON-VALUE bound term and a 4-constructor type, nested k levels
+    in one branch (critical pair mu / mu~ whose mu~ body is a cut of the variable against a case)"""
+    inner = "x"
+    for i in range(k, 0, -1):
+        inner = "(let t%d: Color = pick(x + %d); t%d.case { Red => %d, Green => x + %d, Blue => x - %d, Gray => %s })" % (i, i, i, i, i, i, inner)
+    return "def pick(x: i64): Color { if x < 3 { Red } else { if x < 6 { Green } else { Gray } } }\ndef f(x: i64): i64 { %s }\n" % inner
+
+
 def codata(k):
     body = []
     for i in range(k):
@@ -109,6 +118,7 @@ FAMILIES = {
     "seqcase3": (seqcase3, "f(arg, Green)"),
     "nestcase": (nestcase, "f(arg, Cons(arg, Nil))"),
     "letcase": (letcase, "f(arg)"),
+    "letcallcase": (letcallcase, "f(arg)"),
     "codata": (codata, "f(arg)"),
     "mixed": (mixed, "f(arg, Cons(arg, Nil), Blue)"),
 }
